@@ -25,6 +25,9 @@ LEAN_TARGETS = ["NauyacaVerif.Props.C11"]
 THEOREMS = [f"NauyacaVerif.C11.{t}" for t in (
     "send_after_verify", "send_position", "verify_fail_sends_nothing", "accepted_request_intact", "history_guarded",
     "history_send_position", "history_fail_silent", "chain_trace", "redirect_guarded", "store_fault_sends_nothing")]
+LEAN_TARGETS = LEAN_TARGETS + ["NauyacaVerif.Props.Tr.GetSingleTail"]
+TRANSLATED = ["getSingleTail", "uploadTail"]
+THEOREMS = THEOREMS + [f"NauyacaVerif.Translated.{t}" for t in ("getSingleTail_eq", "getSingleTail_fault", "uploadTail_eq", "uploadTail_fault")]
 EXTRACT: list[str] = []
 ASSUMPTIONS = [
     "parameters of the model (not verified): the TLS handshake (everything before create_connection returns is asyncio's and OpenSSL's; the ClientHello carries the host name as SNI, which is part of the handshake and outside this property), X.509 parsing, SHA-256, SQLite",
